@@ -355,7 +355,9 @@ PROPS["C15"] = dict(
                "--lib biodivine and the default --lib hybrid (biodivine rejects the variable name); the model's fixed search fuel (10^6) is a hypothesis of cli_faithful.",
     technique="Lean 4 proof (composition of the semantics theorems over the CLI's wiring; ordering of sections) + correspondence of the real binary with the model and, section by section, with the specification",
     jobs=[Job("adf", 120, 2500, size=5, size_thorough=6, extra=("cli",), timeout=900, needs_bins=True,
-              relevant=heads("cli", "clirun", "clicheck", "clibad", "cliexport", "cliq", "clicount", "clideep", "clibig"), nontrivial=lambda st: int(st.get("n", 0)) >= 2)],
+              relevant=heads("cli", "clirun", "clicheck", "clibad", "cliexport", "cliq", "clicount", "clideep", "clibig"), nontrivial=lambda st: int(st.get("n", 0)) >= 2),
+          Job("adf", 15, 400, size=90, size_thorough=130, extra=("cliwide",), timeout=900, needs_bins=True, relevant=heads("cli", "clirun", "clicheck"),
+              nontrivial=lambda st: int(st.get("n", 0)) >= 65, label="wide-cli")],
     rule=ADF_GEN + "per ADF six invocations of the real binary (4 single-flag, 2 random flag sets; random mode, sorting, heuristic, fact permutation, label class, layout), one malformed file "
          "(missing terminator / trailing garbage / unbalanced bracket / wrong arity / unknown connective / leading blank), every 10th ADF an export-twice-then-import run; "
          "non-trivial = distinct ADF with >= 2 statements",
